@@ -1,5 +1,6 @@
 import ScrapliModel.Lemmas.Queue
 import ScrapliModel.Lemmas.QueueSolo
+import ScrapliModel.Lemmas.QueueChan
 import ScrapliModel.Lemmas.GoSem
 import ScrapliModel.Generated.BodiesQueue
 /-!
@@ -213,6 +214,92 @@ theorem conc_putback_first (l l' : List CEv) (b c : Bytes) (S Q : List Bytes)
   consume_putback_first l l' b c S Q h
 
 example : consume ([.got [1]] ++ .back [9] :: .got [9] :: [.got [2]]) [[1], [2], [3]] = some [[3]] := by
+  decide
+
+/-! ## the queue inside the channel: end to end, byte level
+
+Producer = the `Channel.read` goroutine (`Chan.enqueued`: skip reads of length 0, normalise, enqueue);
+consumer = the operations (`Read`, `ReadAll`, the `ReadUntil*` loops, `GetPrompt`, the login code with
+its `Requeue` of leftover bytes), which only observe concatenations. -/
+
+/-- End to end, all schedules: if the producer enqueued what `Channel.read` enqueues for the
+transport reads `reads`, then reading the normalised byte stream of those reads with a byte-level
+push-back stack according to the consumer's calls succeeds and leaves exactly the bytes still
+queued: bytes delivered by the transport (normalised) = bytes consumed ++ bytes left, in order. -/
+theorem chan_end_to_end {s : St} (h : Reach s) (norm : Bytes → Bytes) (reads : List Bytes)
+    (hp : s.produced = Chan.enqueued norm reads) :
+    Chan.consumeB (s.rets.flatMap Ret.events ++ s.cpc.pending) (Chan.stream norm reads)
+      = some s.queue.flatten := by
+  have := Chan.consume_bytes _ _ _ (conc_fifo h)
+  rw [hp] at this
+  exact this
+
+example : Reach afterState ∧ afterState.produced = Chan.enqueued id [[1], [], [2]] :=
+  ⟨afterState_reach, by decide⟩
+
+/-- … without put-backs, between consumer calls: the consumer's byte stream followed by the bytes
+still queued is the normalised transport stream. -/
+theorem chan_end_to_end_no_putback {s : St} (h : Reach s) (hc : s.cpc = .idle)
+    (hr : ∀ r ∈ s.rets, r.isReq = false) (norm : Bytes → Bytes) (reads : List Bytes)
+    (hp : s.produced = Chan.enqueued norm reads) :
+    outBytes s.rets ++ s.queue.flatten = Chan.stream norm reads := by
+  rw [conc_fifo_bytes h hc hr, hp]
+  rfl
+
+/-- An operation that concatenates the chunks it dequeued (`ReadUntil*`, `ReadAll`) is, for the
+byte-level reader, one read of the concatenation: chunk boundaries are not observable. -/
+theorem chan_op_concat (cs : List Bytes) (es : List CEv) (S : Bytes) :
+    Chan.consumeB (cs.map .got ++ es) S = Chan.consumeB (.got cs.flatten :: es) S :=
+  Chan.consumeB_gots cs es S
+
+/-- The login code's `Requeue` of the bytes it read restores the stream: read `b`, put `b` back,
+and every later read sees what it would have seen. -/
+theorem chan_login_putback (b : Bytes) (es : List CEv) (S : Bytes) (h : b.isPrefixOf S = true) :
+    Chan.consumeB (.got b :: .back b :: es) S = Chan.consumeB es S :=
+  Chan.consumeB_got_back b es S h
+
+example : ([1, 2] : Bytes).isPrefixOf [1, 2, 3] = true := by decide
+
+/-- Without put-backs the byte-level reader accepts exactly a prefix: stream = bytes obtained ++ rest. -/
+theorem chan_reader_prefix (l : List CEv) (S Q : Bytes) (hb : backsOf l = [])
+    (h : Chan.consumeB l S = some Q) : S = (gotsOf l).flatten ++ Q :=
+  Chan.consumeB_only_gots l S Q hb h
+
+example : backsOf [.got [1], .got [2, 3]] = [] ∧
+    Chan.consumeB [.got [1], .got [2, 3]] [1, 2, 3, 4] = some [4] := by decide
+
+/-- Reads of length 0 are invisible (read.go:104): inserting them anywhere changes nothing. -/
+theorem chan_skips_empty_reads (norm : Bytes → Bytes) (a b : List Bytes) :
+    Chan.enqueued norm (a ++ [] :: b) = Chan.enqueued norm (a ++ b) := by
+  simp [Chan.enqueued, List.filter_append]
+
+/-- The stream is built read by read, in order. -/
+theorem chan_stream_append (norm : Bytes → Bytes) (a b : List Bytes) :
+    Chan.stream norm (a ++ b) = Chan.stream norm a ++ Chan.stream norm b := by
+  simp [Chan.stream, Chan.enqueued, List.filter_append]
+
+/-- When no read contains ESC, normalisation is deletion of CR and does not depend on how the
+transport cut the bytes into reads: the stream is the concatenation of the reads without CR. -/
+theorem chan_stream_plain (strip : Bytes → Bytes) (reads : List Bytes)
+    (h : ∀ r ∈ reads, (Scrapli.Chan.dropCR r).contains ESC = false) :
+    Chan.stream (Scrapli.Chan.normalizeChunk strip) reads = Scrapli.Chan.dropCR reads.flatten := by
+  induction reads with
+  | nil => simp [Chan.stream, Chan.enqueued, Scrapli.Chan.dropCR]
+  | cons r rs ih =>
+    have hr := h r (by simp)
+    have ih' := ih (fun x hx => h x (by simp [hx]))
+    simp only [Chan.stream, Chan.enqueued] at ih' ⊢
+    cases r with
+    | nil => simpa [Scrapli.Chan.dropCR] using ih'
+    | cons x xs =>
+      have hn : Scrapli.Chan.normalizeChunk strip (x :: xs) = Scrapli.Chan.dropCR (x :: xs) := by
+        simp only [Scrapli.Chan.normalizeChunk, hr]
+        simp
+      simp only [List.filter_cons, List.isEmpty_cons, Bool.not_false, if_true, List.map_cons,
+        List.flatten_cons, ih', hn]
+      simp only [Scrapli.Chan.dropCR, List.cons_append, ← List.filter_append]
+
+example : ∀ r ∈ ([[13, 97], [], [98, 13]] : List Bytes), (Scrapli.Chan.dropCR r).contains ESC = false := by
   decide
 
 /-! ## tie to the source: translated method bodies = the `Seq` layer (regenerated on every run)
